@@ -163,8 +163,7 @@ def r2_drop(ctx, P):
                  where=b.where(), site="no drop")
 
 
-def r3_reset(ctx, P):
-    R = "C05.R3"
+def r3_reset(ctx, P, R="C05.R3"):
     ctx.rule(R, "reset keeps exactly the last chunk: frees predecessors, frees in the forward walk only chunks that have a "
                 "successor, then unlinks, resets and makes the survivor current")
     bs = [b for b in P.fn_bodies() if b.item["name"] == "reset" and b.path == "raw_bump::RawBump::<A, S>::reset"]
@@ -362,4 +361,7 @@ def run(ctx, progs):
         c18.r5_by_value(ctx, P, R="C05.R7")
         from . import c12
         c12.r4_rounding_order(ctx, P, R="C05.R8")
+        if any((b_.item.get("file") or "").endswith("bump_pool.rs") for b_ in P.fn_bodies()):
+            from . import c19
+            c19.r2_one_owner(ctx, P, R="C05.R9")   # a pooled arena is pushed back (or dropped) exactly once: never lost
     ctx.config = None
